@@ -449,7 +449,12 @@ CREATE OR REPLACE MACRO vtl_hamming(s1 VARCHAR, s2 VARCHAR) AS (
         WHEN LENGTH(s1) <> LENGTH(s2) THEN
             error('VTL 1-1-18-11: hamming length mismatch '
                   || LENGTH(s1) || ' ' || LENGTH(s2))
-        ELSE hamming(s1, s2)
+        -- counted per character: the hamming() builtin works on bytes (it rejects
+        -- '' and equal-length strings whose UTF-8 encodings differ in length)
+        ELSE COALESCE(list_sum(list_transform(
+            range(1, LENGTH(s1) + 1),
+            i -> CASE WHEN s1[i] = s2[i] THEN 0 ELSE 1 END
+        )), 0)
     END
 );
 
